@@ -35,8 +35,9 @@ func runCase(t *rapid.T, e node) {
 	phase := time.Duration(rapid.Int64Range(0, int64(time.Second)-1).Draw(t, "phase"))
 	src := e.src(false)
 	cbh.BlockEffects = rapid.IntRange(0, 2).Draw(t, "hangingSideEffects") == 0 // webhooks that never return
+	cbh.UseWebhooks = rapid.IntRange(0, 5).Draw(t, "stockWebhooks") == 0       // the stock webhook side effect against a loopback server
 	d := cbh.New(t, src, FD, R, P, phase)
-	cbh.BlockEffects = false
+	cbh.BlockEffects, cbh.UseWebhooks = false, false
 	defer d.Close()
 
 	var recs []rec                                  // completed since the last trip
